@@ -1,8 +1,14 @@
 """C11 — Merkle proofs for accounts and contract variables are sound and complete.
 spec/state/Proof.tla; binding: every Prove step of the TLC model and every forgery of its ForgeTable replayed on
 pkg/trie (harness/pkg/trie/verif_proof_test.go) and on state/statedb (harness/state/statedb/verif_proof_test.go);
-recorded walks validated by TLC against ProofTrace.tla."""
-import json, os, random
+recorded walks validated by TLC against ProofTrace.tla.
+spec/state/ProofRoots.tla (a proof requested for root r is a proof about r: the trie's life cycle — Update / AtomicUpdate
+without Commit, Commit, Stash, SetRoot, LoadCache, Reopen — and ProveAt for every retained root): every state of the
+generated tree rebuilt on the real trie (with and without live cache, verif_proofroots_test.go) and on StateDB.
+spec/state/StateQuery.tla (the chain service's GetStateQuery / GetStateAndProof answer for the requested block):
+every generated (behaviour, query) sent to the real ChainService of an in-process node through the hub
+(harness/internal/verifnode/verif_statequery_test.go) and checked like a light client."""
+import json, os, random, threading
 import vlib
 
 LEVEL = "model_checking"
@@ -14,10 +20,23 @@ MANIFEST = dict(
          "encoding) is replayed on the real pkg/trie and on StateDB.GetAccountAndProof/GetVarAndProof over families of prefix-colliding "
          "256-bit keys: the real generator's answer must have the spec's shape and be accepted by the real verifier functions and by an "
          "independent verifier written from the spec; every forgery of the spec's table is applied to the real proof and nothing the design "
-         "rejects may be accepted. Recorded walks (many historical roots) are validated by TLC against ProofTrace.tla.",
+         "rejects may be accepted. Recorded walks (many historical roots) are validated by TLC against ProofTrace.tla. "
+         "ProofRoots.tla adds the trie's life cycle (Update / AtomicUpdate producing roots WITHOUT commit, Commit, Stash, Trie.Root := committed "
+         "root, LoadCache, a new instance on the store) with the property 'a proof requested for a retained root verifies against that root and "
+         "states the value the key had there' (TLC finds it violated when AtomicUpdate is modelled without its batch copies): every state of the "
+         "generated tree of behaviours is rebuilt on the real trie, without live cache and with one, and on StateDB (blocks = Update+Commit, "
+         "SetRoot, LoadCache, a fresh StateDB), and MerkleProof(Compressed)R / GetAccountAndProof / GetVarAndProof are asked for EVERY retained "
+         "root (uncommitted atomic roots included), every key, both encodings. StateQuery.tla models the chain service's state queries (a chain "
+         "of blocks in which a contract is deployed and its variables are set, overwritten, deleted, created later; Query(block | none, storage "
+         "keys, compressed), account queries): every generated (behaviour, query) is played on an in-process node (real ChainService, block "
+         "production and execution) — the real *message.GetStateQuery / *message.GetStateAndProof go through the component hub as rpc sends "
+         "them — and the answer is verified like a light client: account proof against the state root of the requested block, every variable "
+         "proof against the storage root inside the proven account, inclusion and value as the model says for that block.",
     note="memorydb stands for the disk store; sha256 as trie hash at the trie level, common.Hasher at the statedb level; the repository has no "
          "AccountProof.ValidateProof: the client-side check is the natural composition of trie.Verify* over the proof fields",
-    technique="TLA+/TLC exhaustive model; replay of every generated Prove step and forgery into the real generator/verifier; TLC trace validation")
+    technique="TLA+/TLC exhaustive models (Proof, ProofRoots, StateQuery); replay of every generated Prove step and forgery into the real "
+              "generator/verifier; replay of every generated life-cycle state on the real trie / StateDB with proofs for every retained root; "
+              "replay of every generated (chain, query) on an in-process node through the real query handler; TLC trace validation")
 SPEC_DIR = os.path.join(vlib.SPEC, "state")
 ABS_KEYS = ["000", "001", "010", "100"]          # PK4 of MC_Proof.tla
 VALS = ["v1", "v2"]
@@ -98,6 +117,113 @@ def trace_sig(ev, prev):
     if ev.get("ev") == "Prove":
         return {"kind": "trace-proof-shape", "enc": ev.get("enc")}
     return {"kind": "trace-rejected", "ev": ev.get("ev")}
+
+
+# ------------------------------------------------------------------ ProofRoots / StateQuery: JSON transition logs
+def json_lines(out, prefix):
+    """lines printed by PrintT(prefix \\o "|" \\o ToJson(..)) (a quoted, escaped string)"""
+    head = '"%s|' % prefix
+    for line in out.splitlines():
+        if line.startswith(head):
+            yield json.loads(line[len(head):-1].replace('\\"', '"').replace("\\\\", "\\"))
+
+
+def jmap(pairs):
+    return {bits(k): v for k, v in pairs}
+
+
+def mapkey(m):
+    return ",".join(sorted("%s=%s" % (k, v) for k, v in m.items()))
+
+
+def roots_from(gen):
+    """MC_ProofRoots generation output -> (shape table, states of the tree of life-cycle behaviours)"""
+    shapes = {}
+    for tab in json_lines(gen.out, "SH"):
+        for ent in tab:
+            rows = {}
+            for r in ent["rows"]:
+                rows[bits(r["key"])] = {"incl": r["incl"], "val": r["val"], "pk": bits(r["pk"]), "pv": r["pv"], "len": r["len"],
+                                        "nd": sorted(r["nd"]), "naps": r["len"]}
+            shapes[mapkey(jmap(ent["m"]))] = rows
+    nodes, seen = [], set()
+    for trail, status, hist in json_lines(gen.out, "TJ"):
+        acts = []
+        for a in trail:
+            b = {"name": a["name"]}
+            if "upd" in a:
+                b["upd"] = jmap(a["upd"])
+            if "ri" in a:
+                b["ri"] = a["ri"]
+            if "rb" in a:
+                b["rb"] = a["rb"]
+            acts.append(b)
+        k = json.dumps(acts, sort_keys=True)
+        if k in seen:
+            continue
+        seen.add(k)
+        nodes.append({"trail": acts, "hist": [jmap(m) for m in hist], "st": status["st"], "cur": status["cur"], "prev": status["prev"]})
+    nodes.sort(key=lambda n: json.dumps(n["trail"], sort_keys=True))
+    return shapes, nodes
+
+
+def statedb_reachable(node):
+    """StateDB offers blocks (Update immediately followed by Commit), SetRoot, LoadCache and a fresh instance"""
+    t = node["trail"]
+    for i, a in enumerate(t):
+        if a["name"] in ("AtomicUpdate", "Stash"):
+            return False
+        if a["name"] == "Update" and (i + 1 >= len(t) or t[i + 1]["name"] != "Commit"):
+            return False
+        if a["name"] == "Commit" and (i == 0 or t[i - 1]["name"] != "Update"):
+            return False
+    return all(x == "c" for x in node["st"])
+
+
+def queries_from(gen, blocks):
+    """MC_StateQuery generation output -> behaviours (one contract each) with their queries and expected answers"""
+    by, order = {}, []
+    for trail, chain, act, ans in json_lines(gen.out, "TJ"):
+        k = json.dumps(trail, sort_keys=True)
+        if k not in by:
+            by[k] = {"trail": [dict(name=a["name"], **({"upd": dict(a["upd"])} if "upd" in a else {})) for a in trail],
+                     "chain": [{"ctr": b["ctr"], "sv": dict(b["sv"]), "nonce": b["nonce"]} for b in chain], "queries": [], "_seen": set()}
+            order.append(k)
+        if ans["kind"] == "query":
+            if ans["verifies"] is not True:
+                raise vlib.Infra("StateQuery.tla generated an answer that does not verify: %r" % (ans,))
+            q = {"kind": "query", "b": ans["b"], "comp": ans["comp"], "ks": ans["ks"], "incl": ans["acct"]["incl"],
+                 "vars": [{"incl": v["incl"], "val": v["val"]} for v in ans["vars"]]}
+        else:
+            q = {"kind": "acct", "b": ans["b"], "comp": ans["comp"], "who": ans["who"], "incl": ans["incl"], "nonce": ans["nonce"]}
+        qk = json.dumps(q, sort_keys=True)
+        if qk not in by[k]["_seen"]:
+            by[k]["_seen"].add(qk)
+            by[k]["queries"].append(q)
+    behs = []
+    for k in sorted(order):
+        b = by[k]
+        del b["_seen"]
+        if len(b["trail"]) != blocks or len(b["chain"]) != blocks + 1:
+            raise vlib.Infra("StateQuery generation: a behaviour of %d steps for %d blocks" % (len(b["trail"]), blocks))
+        b["queries"].sort(key=lambda q: json.dumps(q, sort_keys=True))
+        behs.append(b)
+    return behs
+
+
+def tlc_thread(results, key, jobs):
+    """run TLC jobs [(module, cfg, workdir, workers)] one after the other in a thread (own scratch dirs)"""
+    def runit():
+        out = []
+        try:
+            for module, cfg, work, workers in jobs:
+                out.append(vlib.tlc(SPEC_DIR, module, cfg, work, workers=workers, timeout=3000))
+        except BaseException as e:      # reported by the main thread
+            out.append(e)
+        results[key] = out
+    t = threading.Thread(target=runit)
+    t.start()
+    return t
 
 
 def run(c):
